@@ -19,3 +19,4 @@ REGISTRY["ark_encoding"] = ("arkcurve", "encoding")
 REGISTRY["ark_ops"] = ("arkcurve", "ops")
 REGISTRY["ark_element"] = ("arkcurve", "element")
 REGISTRY["ark_elligator"] = ("arkcurve", "elligator")
+REGISTRY["min_element"] = ("mincurve", "element")
